@@ -27,11 +27,24 @@ def _fake_time():
 
 _timing._time = _fake_time
 _extra_n = [0]
+_nset = [0]
+
+
+def argid(t):
+    # which of the argument objects handed to this tableau it currently reports: 0 none, 1 the
+    # constructor's, k + 1 the one of the k-th set_argument call (equal content, own title)
+    a = t.argument
+    if a is None:
+        return 0
+    try:
+        return int(str(a.title)[1:])
+    except (TypeError, ValueError):
+        return -1
 
 
 def obs(t):
     fl = t.flag
-    return {'finished': int(t.finished), 'completed': int(t.completed), 'premature': int(t.premature),
+    return {'argid': argid(t), 'finished': int(t.finished), 'completed': int(t.completed), 'premature': int(t.premature),
             'valid': -1 if t.valid is None else int(t.valid), 'invalid': -1 if t.invalid is None else int(t.invalid),
             'history_len': len(t.history), 'started': int(fl.STARTED in fl)}
 
@@ -63,7 +76,8 @@ def do(t, call, cfg, arg, extra):
         if call == 'build_trunk':
             return 'self' if t.build_trunk() is t else 'other'
         if call == 'set_argument':
-            t.argument = arg
+            _nset[0] += 1
+            t.argument = Argument(cfg['argstr'], title=f'v{_nset[0] + 1}')
             return 'ok'
         if call == 'set_logic':
             t.logic = cfg['logic']
@@ -89,7 +103,7 @@ def main(seqs, configs, out, shard, nshards):
     n = 0
     with open(out, 'w') as o:
         for ci, cfg in enumerate(configs):
-            arg = Argument(cfg['argstr'])
+            arg = Argument(cfg['argstr'], title='v1')
             t0 = _clock[0]
             ref = Tableau(cfg['logic'], arg).build()
             if cfg['tmo'] == 2:
@@ -103,6 +117,7 @@ def main(seqs, configs, out, shard, nshards):
                 if n % nshards != shard:
                     continue
                 Extra = base
+                _nset[0] = 0
                 t = make(cfg, arg)
                 rec = {'id': f"{ci}/{s['id']}", 'mode': cfg['mode'], 'n': len(ref.history), 'valid': int(bool(ref.valid)),
                        'limit': cfg['limit'], 'tmo': cfg['tmo'], 'logic': cfg['logic'], 'argstr': cfg['argstr'],
